@@ -317,6 +317,21 @@ func cmdCheck(args []string) {
 	for fn, n := range infeasible {
 		feasible[fn] -= n
 	}
+	// a function none of whose return sites is reachable under its contract's assumptions is
+	// verified vacuously, whatever the ledger says
+	{
+		var fns []string
+		for fn := range infeasible {
+			fns = append(fns, fn)
+		}
+		sort.Strings(fns)
+		for _, fn := range fns {
+			if feasible[fn] <= 0 {
+				p := writeReplay("vacuous-"+fn, map[string]interface{}{"property": *prop, "obligation": fn + "/cover/return-sites", "error": "no return site of " + fn + " is reachable under the assumptions of its contract and of the contracts it uses: every obligation holds vacuously", "sites": e.InfeasibleSites})
+				violate(fn+"/cover/return-sites", p, false, "no return site is reachable under the contracts (vacuity)")
+			}
+		}
+	}
 	if li := ledger.Infeasible[*prop]; li != nil && !*writeLedger {
 		var fns []string
 		for fn := range infeasible {
